@@ -387,6 +387,79 @@ theorem C20_mibcopy_epoch_witness :
 
 end Pysmi.Cli
 
+/-! ### the revision of a module is its latest REVISION clause -/
+namespace Pysmi.Cli
+
+theorem foldl_max_spec (rs : List Nat) (r : Nat) :
+    r ≤ rs.foldl max r ∧ (∀ x ∈ rs, x ≤ rs.foldl max r) ∧ (rs.foldl max r = r ∨ rs.foldl max r ∈ rs) := by
+  induction rs generalizing r with
+  | nil => simp
+  | cons a rs ih =>
+    obtain ⟨h1, h2, h3⟩ := ih (max r a)
+    simp only [List.foldl_cons]
+    refine ⟨by omega, ?_, ?_⟩
+    · intro x hx
+      rcases List.mem_cons.mp hx with hx | hx
+      · subst hx; omega
+      · exact h2 x hx
+    · rcases h3 with h3 | h3
+      · by_cases hra : a ≤ r
+        · left; rw [h3]; omega
+        · right; rw [h3]; simp; left; omega
+      · right; exact List.mem_cons_of_mem _ h3
+
+/-- **C20_revision_latest**: the revision reported for a module is one of its REVISION clauses and no clause is later -
+whatever the order of the clauses (before repair of `genModuleIdentity` it was the clause written first, so an edition that
+lists its history oldest first counted as old as its first revision); without a clause there is none. -/
+theorem C20_revision_latest (revs : List Nat) :
+    (revs = [] → moduleRevision revs = none) ∧
+    (∀ m, moduleRevision revs = some m → m ∈ revs ∧ ∀ r ∈ revs, r ≤ m) ∧
+    (revs ≠ [] → ∃ m, moduleRevision revs = some m) := by
+  refine ⟨fun h => by subst h; rfl, ?_, ?_⟩
+  · intro m hm
+    cases revs with
+    | nil => simp [moduleRevision] at hm
+    | cons r rs =>
+      simp only [moduleRevision, Option.some.injEq] at hm
+      obtain ⟨h1, h2, h3⟩ := foldl_max_spec rs r
+      rw [hm] at h1 h2 h3
+      refine ⟨?_, ?_⟩
+      · rcases h3 with h3 | h3
+        · rw [h3]; simp
+        · exact List.mem_cons_of_mem _ h3
+      · intro x hx
+        rcases List.mem_cons.mp hx with hx | hx
+        · subst hx; exact h1
+        · exact h2 x hx
+  · intro h
+    cases revs with
+    | nil => exact absurd rfl h
+    | cons r rs => exact ⟨_, rfl⟩
+
+/-- **C20_revision_order_irrelevant**: two modules that carry the same REVISION clauses in different orders have the same
+revision - so which of two editions `mibcopy` keeps does not depend on how either writes its history. -/
+theorem C20_revision_order_irrelevant (a b : List Nat) (h : a.Perm b) : moduleRevision a = moduleRevision b := by
+  by_cases ha : a = []
+  · subst ha
+    have : b = [] := List.Perm.nil_eq h ▸ rfl
+    subst this; rfl
+  · have hb : b ≠ [] := fun hb => ha (by subst hb; exact List.Perm.eq_nil h)
+    obtain ⟨ma, hma⟩ := (C20_revision_latest a).2.2 ha
+    obtain ⟨mb, hmb⟩ := (C20_revision_latest b).2.2 hb
+    obtain ⟨ha1, ha2⟩ := (C20_revision_latest a).2.1 ma hma
+    obtain ⟨hb1, hb2⟩ := (C20_revision_latest b).2.1 mb hmb
+    have h1 : mb ≤ ma := ha2 mb (h.mem_iff.mpr hb1)
+    have h2 : ma ≤ mb := hb2 ma (h.mem_iff.mp ha1)
+    rw [hma, hmb]
+    congr 1
+    omega
+
+/-- an edition that lists its history oldest first is as new as its last clause -/
+example : moduleRevision [200001010000, 201001010000] = some 201001010000 := by decide
+example : moduleRevision [201001010000, 200001010000] = some 201001010000 := by decide
+
+end Pysmi.Cli
+
 namespace Pysmi.Generated.Cli
 
 /-- the exit codes as the model was written against -/
